@@ -30,7 +30,7 @@ MANIFEST = dict(
 )
 COQ_FILES = MODEL_FILES + ["Base/Amp.v", "Model/KrausCheck.v", "Proofs/CircuitProofs.v", "Proofs/CircuitTheorem.v", "Proofs/BitIdx.v",
                           "Proofs/DenseBridge.v", "Proofs/KrausSem.v", "Proofs/KrausLocal.v", "Proofs/KrausTheorem.v", "Proofs/KrausGates.v", "Proofs/KrausFeedback.v", "Proofs/KrausNoise2.v", "Proofs/KrausRot.v", "Proofs/KrausChain.v",
-                          "Proofs/KrausCircuit.v", "Proofs/ParseElab.v", "Props/C02.v"]
+                          "Proofs/KrausCircuit.v", "Proofs/ParseElab.v", "Proofs/KrausBorn.v", "Proofs/ParseBorn.v", "Proofs/ParseOk.v", "Props/C02.v"]
 
 
 def run(ctx: Ctx) -> int:
